@@ -183,6 +183,9 @@ func (g *vfGen) anyOf(name string, maxMembers, typLo, typHi int, kinds []int) *v
 
 type vfPreCfg struct {
 	nNH, nNHG, nTop, nHeld int
+	// nStale: held REPLACE operations whose key has since been deleted
+	// (history: ADD key, REPLACE key with an unresolvable reference -> held, DELETE key)
+	nStale int
 	members            int
 	topKinds           []int
 }
@@ -219,6 +222,18 @@ func vfCanonical(r *RIB, ref *vfRef, g *vfGen, c vfPreCfg) {
 				d.typ = vfREPLACE
 			}
 			vfAssume(vfSubmit(r, ref, d) == vfStHeld)
+		}
+	}
+	for i := 0; i < c.nStale; i++ {
+		if vfBool("pre.stale.live") {
+			// needs an installed group to add the entry in the first place
+			add := g.top("pre.stale", vfKV4)
+			vfAssume(vfSubmit(r, ref, add) == vfStAcked)
+			rep := &vfOpD{id: g.id(), typ: vfREPLACE, kind: vfKV4, ni: add.ni, pfx: add.pfx, hasBody: true,
+				hasNHG: true, nhg: vfU64("pre.stale.newnhg"), hasNHGNI: add.hasNHGNI, nhgNI: add.nhgNI}
+			vfAssume(vfSubmit(r, ref, rep) == vfStHeld)
+			del := &vfOpD{id: g.id(), typ: vfDELETE, kind: vfKV4, ni: add.ni, pfx: add.pfx, hasBody: true}
+			vfAssume(vfSubmit(r, ref, del) == vfStAcked)
 		}
 	}
 	ref.compare(r)
